@@ -40,4 +40,26 @@ theorem canonicalEmpty (n : Nat) : CanonicalEmpty (BitSet n) (Fin n) where
     exact ((lawfulRequired n).contains_empty v).symm
 
 end BitSet
+
+section OfRequired
+variable {S V : Type} [DecidableEq S]
+
+set_option warn.classDefReducibility false in
+/-- any implementation of the five required methods that is lawful with canonical equality
+(`LawfulRequired`) has canonical emptiness -/
+theorem canonicalEmpty_ofRequired (empty : S) (singleton : V → S) (complement : S → S)
+    (intersection : S → S → S) (contains : S → V → Bool)
+    (R : @LawfulRequired S V (VersionSet.ofRequired empty singleton complement intersection contains)) :
+    @CanonicalEmpty S V (VersionSet.ofRequired empty singleton complement intersection contains)
+      (lawful_ofRequired empty singleton complement intersection contains R) := by
+  letI := VersionSet.ofRequired empty singleton complement intersection contains
+  letI := lawful_ofRequired empty singleton complement intersection contains R
+  refine ⟨?_⟩
+  intro s hs h
+  apply R.ext s _ hs R.valid_empty
+  intro v
+  rw [h v]
+  exact (R.contains_empty v).symm
+
+end OfRequired
 end Pubgrub
